@@ -31,14 +31,17 @@ def signals():
 
 
 def fresh_dicts():
-    return {1: dict(CYC[1]), 2: {'amp_threshes': (1, 2), 'fs': FS, 'f_range': FR}, 3: dict(AMP[1])}
+    return {1: dict(CYC[1]), 2: {'amp_threshes': (1, 2), 'fs': FS, 'f_range': FR}, 3: dict(AMP[1]), 4: {'filter_kwargs': {'n_cycles': 4}, 'boundary': 2}}
 
 
 def snap_heap(D):
     out = []
-    for r in (1, 2, 3):
+    for r in (1, 2, 3, 4):
         d = D[r]
         mnc = d.get('min_n_cycles', 0)
+        if r == 4:
+            out.append({'mnc': 0, 'lvl': 1 if d == {'filter_kwargs': {'n_cycles': 4}, 'boundary': 2} else 9})
+            continue
         if r == 2:
             lvl = 1
             expected = {'amp_threshes', 'fs', 'f_range', 'min_n_cycles'}
@@ -94,13 +97,14 @@ def replay(behaviour):
             warnings.simplefilter('ignore')
             try:
                 if a['a'] == 'New':
-                    objs[a['o']] = Bycycle(center_extrema='peak', burst_method=a['method'], burst_kwargs=D[2], thresholds=D[a['tk']])
+                    objs[a['o']] = Bycycle(center_extrema='peak', burst_method=a['method'], burst_kwargs=D[2], thresholds=D[a['tk']], find_extrema_kwargs=D[4])
                 elif a['a'] == 'Fit':
                     b = objs[a['o']]
                     b.fit(SIG[a['s']], FS, FR)
                     ev['df_fp'] = pt.table_fp(b.df_features)
                     ev['fresh_fp'] = pt.table_fp(compute_features(SIG[a['s']].copy(), FS, FR, center_extrema='peak', burst_method=a['method'],
-                                                                  burst_kwargs=copy.deepcopy(intent[2]), threshold_kwargs=copy.deepcopy(intent[a['tk']])))
+                                                                  burst_kwargs=copy.deepcopy(intent[2]), threshold_kwargs=copy.deepcopy(intent[a['tk']]),
+                                                                  find_extrema_kwargs=copy.deepcopy(intent[4])))
                 elif a['a'] == 'Recompute':
                     b = objs[a['o']]
                     before = b.df_features.copy()
@@ -147,16 +151,16 @@ def replay(behaviour):
                         tab = TAB[(s, m)]
                     elif f == 'compute_burst_features_inverted_flanks':
                         tab, sig = SHPN[s], NOISY[s]
-                    dicts = [D[tk], D[2]] + (OUTER[m] if f.startswith('compute_features_2d') or f == 'compute_features_3d' else [])
+                    dicts = [D[tk], D[2], D[4], D[4]['filter_kwargs']] + (OUTER[m] if f.startswith('compute_features_2d') or f == 'compute_features_3d' else [])
                     if f.startswith('compute_features_2d'):
                         sig = SIGS2
                     elif f == 'compute_features_3d':
                         sig = SIGS3
                     ev['pre'] = arg_fp(sig, dicts, tab)
                     if f == 'compute_features':
-                        res = compute_features(sig, FS, FR, burst_method=m, burst_kwargs=D[2], threshold_kwargs=D[tk])
+                        res = compute_features(sig, FS, FR, burst_method=m, burst_kwargs=D[2], threshold_kwargs=D[tk], find_extrema_kwargs=D[4])
                     elif f == 'compute_shape_features':
-                        res = compute_shape_features(sig, FS, FR)
+                        res = compute_shape_features(sig, FS, FR, find_extrema_kwargs=D[4])
                     elif f in ('compute_burst_features', 'compute_burst_features_inverted_flanks'):
                         res = compute_burst_features(tab, sig, burst_method=m, burst_kwargs=D[2])
                     elif f == 'limit_df_keeping_all_cycles':
